@@ -56,6 +56,7 @@ pub fn projects(ctx: &mut Ctx, ic: &IssuedCase, shows: &[Vec<usize>]) -> Vec<Val
 }
 
 pub fn run_case(ctx: &mut Ctx, case: &Value) {
+    crate::real::set_current(case);
     ctx.report.evaluations += 1;
     let ic = match issue_any(ctx, case) {
         Some(ic) => ic,
